@@ -80,7 +80,42 @@ def features(doc):
     return sorted(f)
 
 
+def check_circle_pct(case):
+    """<circle r="p%">: a percentage that is neither a width nor a height refers to the normalised diagonal of the viewport,
+    sqrt((w^2 + h^2) / 2) (SVG 1.1 section 7.10) - irrational in general, so the expected radius is this closed formula and
+    not a TLC value.  Whatever the size of the viewport, a circle is round."""
+    import math
+    W, H, p, nested = case["W"], case["H"], case["p"], case["nested"]
+    inner = '<circle id="c" cx="%d" cy="%d" r="%s%%"/>' % (W // 2, H // 2, p)
+    if nested:
+        xml = '<svg xmlns="http://www.w3.org/2000/svg" width="1000" height="1000"><svg x="10" y="20" width="%d" height="%d">%s</svg></svg>' % (W, H, inner)
+        cx, cy = W // 2 + 10, H // 2 + 20
+    else:
+        xml = '<svg xmlns="http://www.w3.org/2000/svg" width="%d" height="%d">%s</svg>' % (W, H, inner)
+        cx, cy = W // 2, H // 2
+    r = p / 100.0 * math.sqrt((W * W + H * H) / 2.0)
+    dis = []
+    for reify in (True, False):
+        what = "parse(reify=%s) of %s" % (reify, xml)
+        try:
+            d = svg.SVG.parse(io.StringIO(xml), reify=reify)
+            shapes = [e for e in d.elements() if isinstance(e, svg.Shape)]
+            bb = shapes[0].bbox()
+        except engine.CaseTimeout:
+            raise
+        except Exception as e:
+            dis.append({"clause": "Raises", "detail": "%s raised %s: %s" % (what, type(e).__name__, str(e)[:80])})
+            continue
+        want = (cx - r, cy - r, cx + r, cy + r)
+        if len(shapes) != 1 or bb is None or any(abs(g - w) > 1e-9 * max(W, H) for g, w in zip(bb, want)):
+            dis.append({"clause": "CirclePercent", "detail": "%s: the circle has box %r, a circle of radius %s%% of the normalised diagonal %r has %r" % (
+                what, bb, p, math.sqrt((W * W + H * H) / 2.0), want)})
+    return {"dis": dis, "nontrivial": W != H, "class": "circle_pct", "xml": xml, "checked": ["CirclePercent"]}
+
+
 def check_case(case):
+    if "W" in case:
+        return check_circle_pct(case)
     doc, cfg, out, k = case["doc"], case["cfg"], case["out"], case["n"] + case["seed"]
     xml = docutil.to_xml(doc, k)
     kw = parse_kwargs(cfg, k)
@@ -137,6 +172,12 @@ def run(tier, seed):
             if case["n"] == 7:
                 run.sample({"simulated": True, "xml": r.get("xml"), "cfg": case["cfg"], "expected_shapes": [[o[0], o[2]] for o in case["out"]]})
         run.extra["simulated_documents"] = len(sim)
+        # percentage radius of a circle (closed formula, see check_circle_pct)
+        pct = [{"W": W, "H": H, "p": p, "nested": nested} for (W, H) in ((200, 100), (100, 700), (70, 170), (300, 300), (96, 48))
+               for p in (10, 25, 50) for nested in (False, True)]
+        for case, r in engine.replay("harness.c03", pct, chunk=10):
+            run.record(case, r, key=r.get("xml"))
+        run.extra["circle_percent_cases"] = len(pct)
         # generated documents: the harness draws closed documents with varied geometry, units, percentages, viewBoxes and
         # alignments (harness/docgen.py), TLC evaluates DocCore!RenderDoc on each, the parser is compared with that
         import json
